@@ -39,6 +39,10 @@ X_ioErrorKindKept(s, firstErr, e) ==
 X_cutIsUnexpectedEof(s, firstErr, e) ==
   (e.res = "err" /\ firstErr /\ s.faultKind = "cut") => e.kind = "Io:UnexpectedEof"
 
+\* Named deviation: the JSON helpers report a transport error met while reading as ErrorKind::Json (the JSON
+\* library wraps the I/O error), not as Io.
+Dev_jsonWrapsTransportErrors(op) == op \in {"json", "json_utf8"}
+
 ExtGuards == {"X_ioErrorKindKept", "X_cutIsUnexpectedEof"}
 ExtGuard(g, s, firstErr, e) ==
   CASE g = "X_ioErrorKindKept" -> X_ioErrorKindKept(s, firstErr, e)
